@@ -237,9 +237,10 @@ type fake struct {
 	count     map[string]int
 	log       []served
 	manifest  []byte
-	manifests map[string][]byte // par steps: by ns/model/tag
-	authOn    bool              // the registry wants a bearer token of the current epoch on every request
-	epoch     int               // tokens issued in an earlier epoch are no longer accepted
+	manifests map[string][]byte    // par steps: by ns/model/tag
+	cancels   []context.CancelFunc // par steps: the clients of the concurrent pulls
+	authOn    bool                 // the registry wants a bearer token of the current epoch on every request
+	epoch     int                  // tokens issued in an earlier epoch are no longer accepted
 	issued    int
 	regHost   string // 127.0.0.1:p
 	cdnHost   string // localhost:p2
@@ -324,6 +325,28 @@ func (f *fake) record(s served) {
 	f.log = append(f.log, s)
 }
 
+// cancelAfter: the client of one of the concurrent pulls goes away some time after this response has been sent
+// (e.g. while the part goroutine sleeps in its retry back-off)
+func (f *fake) cancelAfter(sp spec) {
+	n, ok := sp.num("cancel_after_ms")
+	if !ok {
+		return
+	}
+	who, _ := sp.num("cancel_pull")
+	f.mu.Lock()
+	var cf context.CancelFunc
+	if int(who) < len(f.cancels) {
+		cf = f.cancels[who]
+	}
+	f.mu.Unlock()
+	if cf != nil {
+		go func() {
+			time.Sleep(time.Duration(n) * time.Millisecond)
+			cf()
+		}()
+	}
+}
+
 // respond writes one response according to the scripted spec; body is the honest body for this request.
 func (f *fake) respond(w http.ResponseWriter, r *http.Request, key string, sp spec, status int, hdr map[string]string, body []byte) {
 	sv := served{K: key, Method: r.Method, Range: parseRange(r.Header.Get("Range")), Auth: r.Header.Get("Authorization"), Query: r.URL.RawQuery}
@@ -394,6 +417,7 @@ func (f *fake) respond(w http.ResponseWriter, r *http.Request, key string, sp sp
 		// connection closed before any response
 		sv.End = "nohdr"
 		f.record(sv)
+		f.cancelAfter(sp)
 		// bytes that are not an HTTP response, then close: a transport error that net/http does not
 		// retry by itself (it silently retries idempotent requests on connections that died unused)
 		if hj, ok := w.(http.Hijacker); ok {
@@ -405,6 +429,7 @@ func (f *fake) respond(w http.ResponseWriter, r *http.Request, key string, sp sp
 		return
 	}
 	f.record(sv)
+	f.cancelAfter(sp)
 	if sp.has("rotate_after") {
 		// every token issued so far stops being accepted once this response has been sent
 		f.mu.Lock()
@@ -942,6 +967,9 @@ func (f *fake) par(apiURL, models string, st map[string]any) map[string]any {
 		ctxs[i], cancels[i] = context.WithCancel(context.Background())
 		defer cancels[i]()
 	}
+	f.mu.Lock()
+	f.cancels = cancels
+	f.mu.Unlock()
 	if cs, ok := st["cancel"].(map[string]any); ok {
 		// the client of one of the pulls goes away when the n-th request for a key arrives
 		f.mu.Lock()
@@ -955,6 +983,22 @@ func (f *fake) par(apiURL, models string, st map[string]any) map[string]any {
 		go func(i int, name string) {
 			defer wg.Done()
 			time.Sleep(time.Duration(i) * 150 * time.Millisecond)
+			if a, ok := pulls[i].(map[string]any)["after"].(map[string]any); ok {
+				// start this pull only after a request has been seen n times, plus a delay
+				wk, _ := a["key"].(string)
+				wn := hx.Int(a["n"])
+				deadline := time.Now().Add(20 * time.Second)
+				for time.Now().Before(deadline) {
+					f.mu.Lock()
+					seen := f.count[wk]
+					f.mu.Unlock()
+					if seen >= wn {
+						break
+					}
+					time.Sleep(5 * time.Millisecond)
+				}
+				time.Sleep(time.Duration(hx.Int(a["extra_ms"])) * time.Millisecond)
+			}
 			results[i] = doPull(ctxs[i], apiURL, f.regHost+"/"+name)
 		}(i, name)
 	}
